@@ -272,3 +272,38 @@ pub proof fn lemma_primitive_reads_printed(op: Operation, v: Version, tail: Seq<
         Operation::Exact => {},
     }
 }
+
+// ---- groundwork for C13: values read back from a printed text are the same *up to the characters of their strings*; that is enough for the
+// order (identifiers compare through their text), so bounds membership and the prerelease gate cannot tell the two apart
+pub proof fn lemma_idents_same_equal(a: Seq<Identifier>, b: Seq<Identifier>)
+    requires idents_same(a, b),
+    ensures pre_cmp(a, b) == Ordering::Equal,
+    decreases a.len(),
+{
+    if a.len() > 0 {
+        assert(ident_same(a[0], b[0]));
+        match (a[0], b[0]) {
+            (Identifier::AlphaNumeric(s), Identifier::AlphaNumeric(t)) => { lemma_str_refl(s@); },
+            _ => {},
+        }
+        assert(idents_same(a.drop_first(), b.drop_first())) by {
+            assert forall|k: int| 0 <= k < a.drop_first().len() implies ident_same(#[trigger] a.drop_first()[k], b.drop_first()[k]) by { assert(ident_same(a[k + 1], b[k + 1])); }
+        }
+        lemma_idents_same_equal(a.drop_first(), b.drop_first());
+    }
+}
+pub proof fn lemma_same_key_same_order(k1: VKey, k2: VKey, w: VKey)
+    requires k1.major == k2.major, k1.minor == k2.minor, k1.patch == k2.patch, idents_same(k1.pre, k2.pre),
+    ensures kcmp(k1, w) == kcmp(k2, w), kcmp(w, k1) == kcmp(w, k2), kcmp(k1, k2) == Ordering::Equal,
+{
+    lemma_idents_same_equal(k1.pre, k2.pre);
+    assert(kcmp(k1, k2) == Ordering::Equal);
+    lemma_k_flip(k1, k2);
+    lemma_k_flip(k1, w); lemma_k_flip(k2, w);
+    if kcmp(k1, w) != Ordering::Greater {
+        lemma_k_trans(k2, k1, w);
+        if kcmp(k1, w) == Ordering::Equal { lemma_k_trans(w, k1, k2); }
+    } else {
+        lemma_k_trans(w, k1, k2);
+    }
+}
